@@ -153,6 +153,7 @@ type vWorld struct {
 	pool    *x509.CertPool
 	sealed  bool
 	cleanup []func()
+	altKey  *ecdsa.PrivateKey // set when the world's CA key is not vCAKey
 }
 
 type vWorldOpts struct {
@@ -168,6 +169,8 @@ type vWorldOpts struct {
 	NoDB       bool
 	// public keys the server knows before it unseals (keymaster_public_keys_filename)
 	PrePublished []crypto.PublicKey
+	// the deployment's CA key is an ECDSA P-521 key instead of the RSA one (what the harness signs "as the server" follows)
+	P521CA bool
 }
 
 type vIdentLogger struct{ w *vWorld }
@@ -229,6 +232,14 @@ func newWorld(o vWorldOpts) *vWorld {
 	w.pw = &vPwBackend{pw: map[string]string{"alice": "pw-alice", "bob": "pw-bob", "admin": "pw-admin", "carol": "pw-carol"}}
 	st.passwordChecker = w.pw
 	st.SSHCARawFileContent = vCAKeyPEM
+	if o.P521CA {
+		k, err := ecdsa.GenerateKey(elliptic.P521(), rand.Reader)
+		vMust(err)
+		der, err := x509.MarshalECPrivateKey(k)
+		vMust(err)
+		st.SSHCARawFileContent = pem.EncodeToMemory(&pem.Block{Type: "EC PRIVATE KEY", Bytes: der})
+		w.altKey = k
+	}
 	if o.Ed25519 {
 		st.Ed25519CAFileContent = vEdKeyPEM
 	}
@@ -521,7 +532,12 @@ func vSign(key interface{}, alg jose.SignatureAlgorithm, claims interface{}) str
 	return out
 }
 
-func (w *vWorld) signOurs(claims interface{}) string { return vSign(vCAKey, jose.RS256, claims) }
+func (w *vWorld) signOurs(claims interface{}) string {
+	if w.altKey != nil {
+		return vSign(w.altKey, jose.ES512, claims)
+	}
+	return vSign(vCAKey, jose.RS256, claims)
+}
 
 // mintCookie returns a session cookie exactly as the server would issue it, aged by `age`.
 func (w *vWorld) mintCookie(user string, level int, age time.Duration) string {
